@@ -37,7 +37,14 @@ RULE = (
     "transport: the real StdioClient behind a scripted process: every batch of 0..4 members over "
     "a 5-letter alphabet of valid / invalid members at a version without and with batching (exhaustive), every version of "
     "{unset, None, '', supported versions, cutoff neighbours} x a mixed stream whole and cut, seeded connection histories of "
-    "1..4 segments with set_protocol_version between them; non-trivial = distinct history"
+    "1..4 segments with set_protocol_version between them; hardening: every other way to ask the question (should_reject_batch "
+    "on falsy / non-list data, BatchProcessor constructor / update / can_process_batch / create_batch_rejection_error with falsy "
+    "ids, both deprecated aliases, ProtocolVersion.is_older / is_newer / reversed compare, the client's getters after each set, "
+    "StdioTransport.set_protocol_version), format-hostile and magic version strings (soft), falsy / twin-id / nested / hostile "
+    "batch members, the same batch three times, 230-member batches with a late consumer, per-request streams, closed "
+    "notification / read receivers, the child's stdin closed before a batch arrives; processor: BatchProcessor."
+    "process_message_data over version sequences x data shapes x handler behaviours (returns / None / raises); "
+    "non-trivial = distinct history"
 )
 TRUSTED = ["Gen/Versions.lean regenerated from batching.py (if/elif chain of supports_batching) and versioning.py (SUPPORTED_VERSIONS)"]
 ASSUMPTIONS = [
@@ -68,6 +75,50 @@ def _cmp_char(PV, v):
     except ValueError:
         return "E"
     return "<" if c < 0 else ("=" if c == 0 else ">")
+
+
+FALSY_DATA = [[], {}, 0, "", None, False, (), [[]], [0], [{}], [None], {"jsonrpc": "2.0", "method": "m"}, "[]", [1, 2]]
+
+
+def _safe(f):
+    try:
+        return f()
+    except Exception as ex:  # noqa
+        return "raised:" + type(ex).__name__
+
+
+def _api_obs(v):
+    """every other public way to ask the same question (batching.py, versioning.py, both deprecated aliases)"""
+    import warnings
+
+    from chuk_mcp.protocol.features import batching as B
+    from chuk_mcp.protocol.types.versioning import ProtocolVersion as PV
+    from . import c13 as _self  # noqa
+
+    o = {}
+    if isinstance(v, str) and v:
+        o["is_older"] = _safe(lambda: PV.is_older(v, CUTOFF))
+        o["is_newer"] = _safe(lambda: PV.is_newer(v, CUTOFF))
+        o["rev"] = _safe(lambda: PV.compare(CUTOFF, v))
+    o["reject"] = [_safe(lambda d=d: B.should_reject_batch(v, d)) for d in FALSY_DATA]
+    o["ctor"] = _safe(lambda: B.BatchProcessor(v).batching_enabled)
+
+    def upd():
+        p = B.BatchProcessor("2025-06-18" if v != "2025-06-18" else "2024-11-05")
+        p.update_protocol_version(v)
+        return [p.batching_enabled, p.protocol_version == v, [p.can_process_batch(d) for d in FALSY_DATA]]
+    o["update"] = _safe(upd)
+    with warnings.catch_warnings():
+        warnings.simplefilter("ignore")
+        o["legacy"] = [_safe(lambda: B._supports_batch_processing(v))]
+        try:
+            import sys
+            from ..stdio_h import stdio_module
+            o["legacy"].append(_safe(lambda: stdio_module()._supports_batch_processing(v)))
+        except Exception:  # noqa
+            pass
+    o["err"] = _safe(lambda: [B.BatchProcessor(v).create_batch_rejection_error(i) for i in (None, 0, "", "x", 7)])
+    return o
 
 
 class Decision(Suite):
@@ -101,6 +152,8 @@ class Decision(Suite):
             "2025-06-18 ", "2025-06-18\n", "2025- 06-18", "2025-+6-18", "+2025-06-18", "2025-06-+19", "2_025-06-18",
             "2025-0_6-18", "2025-06-1_8", "2025-06-_18", "2025-06-18_", "2025-06-1__8", "2025/06/18", "2025.06.18",
             "20250618", "2025-06-18T00", "draft", "latest", "1-1-1", "3000-1-1", "2025-7-1", "2025-06-018",
+            "%s", "%d-%d-%d", "{}", "{0}-{1}-{2}", "2025-06-18%s", "2025-%s-18", "0", "None", "null", "False", "2.0", "latest-06-18",
+            "2025-06-18" * 3, "9" * 50 + "-06-18", "2025-06-18\u2028", "\u0085", "2025\u201306\u201318", "２０２５-０６-１８"[:10],
             "2025-13", "\t2025-06-17", "2025-\x0b06-\x0c17", "2025-06-17\r\n", "0-0-0", "2025-06-", "-06-18",
         ]
         out += [{"v": v} for v in mal]
@@ -112,6 +165,9 @@ class Decision(Suite):
 
     # ---------------------------------------------------------------- implementation
     def impl_batch(self, cases):
+        from .. import stdio_cov
+
+        stdio_cov.start()
         from chuk_mcp.protocol.features.batching import supports_batching
         from chuk_mcp.protocol.types.versioning import ProtocolVersion as PV, SUPPORTED_VERSIONS
 
@@ -132,7 +188,8 @@ class Decision(Suite):
                     s = bool(supports_batching(v))
                 except Exception as ex:  # noqa
                     s = "raised:" + type(ex).__name__
-                out.append({"supports": s, "compare": _cmp_char(PV, v), "supported": v in SUPPORTED_VERSIONS})
+                out.append({"supports": s, "compare": _cmp_char(PV, v), "supported": v in SUPPORTED_VERSIONS,
+                            "api": _api_obs(v)})
         return out
 
     # ---------------------------------------------------------------- model
@@ -184,6 +241,38 @@ class Decision(Suite):
                     f"{CUTOFF!r}) says {cmpc!r}", {"v": v, "compare": "<" if supports else "= or >"})
         return None
 
+    def _check_api(self, v, supports, api):
+        """the other entry points must give the same answer (None / '' / well-formed versions only)"""
+        if supports not in (True, False) or not api:
+            return None
+        is_list = [isinstance(d, list) for d in FALSY_DATA]
+        want_reject = [(not supports) and l for l in is_list]
+        if api.get("reject") != want_reject:
+            return ("api-disagrees", f"should_reject_batch({v!r}, data) disagrees with supports_batching({v!r}) = {supports} "
+                    "(a batch is a JSON array, nothing else)", {"v": v, "should_reject_batch": want_reject})
+        if api.get("ctor") is not supports:
+            return ("api-disagrees", f"BatchProcessor({v!r}).batching_enabled is {api.get('ctor')}", {"v": v, "batching_enabled": supports})
+        want_upd = [supports, True, [supports or not l for l in is_list]]
+        if api.get("update") != want_upd:
+            return ("api-disagrees", f"BatchProcessor.update_protocol_version({v!r}) leaves a state that disagrees with "
+                    f"supports_batching = {supports}", {"v": v, "update": want_upd})
+        if any(x is not supports for x in api.get("legacy", [])):
+            return ("api-disagrees", f"_supports_batch_processing({v!r}) disagrees with supports_batching", {"v": v})
+        if "is_older" in api and WELL.match(v or ""):
+            if api["is_older"] is not supports:
+                return ("disagrees-with-compare", f"supports_batching({v!r}) is {supports} but ProtocolVersion.is_older({v!r}, "
+                        f"{CUTOFF!r}) is {api['is_older']}", {"v": v, "is_older": supports})
+            newer = expected_supports(v) is False and v != CUTOFF
+            if api["is_newer"] is not newer or api["rev"] != (0 if v == CUTOFF else (1 if supports else -1)):
+                return ("version-order", f"ProtocolVersion.is_newer / compare are not the date order around {v!r}", {"v": v})
+        err = api.get("err")
+        if isinstance(err, list):
+            for i, e in zip((None, 0, "", "x", 7), err):
+                if not (isinstance(e, dict) and isinstance(e.get("error"), dict) and e["error"].get("code") == -32600
+                        and "id" in e and e["id"] == i and type(e["id"]) is type(i)):
+                    return ("rejection-code", "create_batch_rejection_error does not build a -32600 error carrying the given id", {"id": i})
+        return None
+
     def oracle(self, case, o):
         if "year" in case:
             vs = year_strings(case["year"])
@@ -192,7 +281,8 @@ class Decision(Suite):
                 if r is not None:
                     return r
             return None
-        return self._check_one(case["v"], o["supports"], o["compare"])
+        return self._check_one(case["v"], o["supports"], o["compare"]) or (
+            self._check_api(case["v"], o["supports"], o.get("api")) if (case["v"] is None or case["v"] == "" or WELL.match(case["v"])) else None)
 
     def kind(self, case, o):
         if "year" in case:
@@ -217,6 +307,15 @@ class Decision(Suite):
                     return
 
 
+def extra(ctx, tier):
+    """line coverage of the anchored functions reached by this run (visibility only, no verdict)"""
+    from .. import stdio_cov
+
+    for n in stdio_cov.notes(['batching.', 'versioning.', '._process', '._send_error', '.set_', '.get_', '.is_']):
+        if n not in ctx.notes:
+            ctx.notes.append(n)
+
+
 def suites():
-    from . import c13_transport
-    return [Decision()] + c13_transport.suites()
+    from . import c13_transport, c13_processor
+    return [Decision()] + c13_transport.suites() + c13_processor.suites()
